@@ -384,7 +384,7 @@ func stmtsBeforeLoop(fd *ast.FuncDecl) []ast.Stmt {
 }
 
 func checkC16(c *core.Ctx) {
-	c.Explainf("C16 (decided clause: parser/formatter sibling agreement; that equal token counts imply equal text, and comment attachment, are NOT decided). format.go is a second consumer of the token grammar, driven by fixed token counts. R1: every token kind for which ReadFile's switch records something in the File has an arm in format's switch that writes. R2: for each paired construct every token count the parser can take along its non-error paths (sum of expectNext arities, expectAnyOfNext = 1, Next = 1, UnNext = -1, readUntil/loops = unbounded; optNewline/skipEndOfLineComments = trivia) must be a count the formatter can consume (constant-trip loops x body + straight-line Next calls; a loop that runs to a delimiter covers every count); both are recomputed from source on every run. R3: where the parser loops (postfix [] in readFieldType) the formatter loops. R4: every token the formatter takes with a bare tr.Next() is written back as its own text (.concrete) or as the same punctuation literal. R4c: a lookahead (a kind test on a token taken by position) puts the token back with UnNext() or writes it on every path of the side where the test fails, before another token is taken or the function returns (go/cfg path rule). The same for a lookahead written as a switch (a non-dispatch switch on .kind some clause of which calls UnNext): every clause, the default and the no-match path account for the token. And a loop that ends on `if <tok>.kind == K { break }` holds K when it ends: K is written before anything else is taken, where a call to a helper that starts with tr.Next() counts as taking (helpers are summarised by their first token event). R4d: a token or its text is only ever appended, assigned or written in format.go — handing it to any other function is a transformation of source text (a re-spaced `//[tag(…)]` stops being a field tag). R5: the readonly marker is carried to the struct formatter. R7: every non-range loop of the formatter takes a token per cycle on balance or counts to its bound (the loop-progress rule of C10/R9 on format.go): Format terminates on finite input. R6: a line comment reaches the output with its line break: the tokenizer appends everything its delimiter read returned, or every formatter site adds the break. R8: the parser does not let a line break decide whether a non-comment attribute reaches its definition (C11/R1b on the five definition loops): Format removes blank lines, so an attribute a blank line detaches would be attached after formatting.")
+	c.Explainf("C16 (decided clause: parser/formatter sibling agreement; that equal token counts imply equal text, and comment attachment, are NOT decided). format.go is a second consumer of the token grammar, driven by fixed token counts. R1: every token kind for which ReadFile's switch records something in the File has an arm in format's switch that writes. R2: for each paired construct every token count the parser can take along its non-error paths (sum of expectNext arities, expectAnyOfNext = 1, Next = 1, UnNext = -1, readUntil/loops = unbounded; optNewline/skipEndOfLineComments = trivia) must be a count the formatter can consume (constant-trip loops x body + straight-line Next calls; a loop that runs to a delimiter covers every count); both are recomputed from source on every run. R3: where the parser loops (postfix [] in readFieldType) the formatter loops. R4: every token the formatter takes with a bare tr.Next() is written back as its own text (.concrete) or as the same punctuation literal. R4c: a lookahead (a kind test on a token taken by position) puts the token back with UnNext() or writes it on every path of the side where the test fails, before another token is taken or the function returns (go/cfg path rule). The same for a lookahead written as a switch (a non-dispatch switch on .kind some clause of which calls UnNext): every clause, the default and the no-match path account for the token. And a loop that ends on `if <tok>.kind == K { break }` holds K when it ends: K is written before anything else is taken, where a call to a helper that starts with tr.Next() counts as taking (helpers are summarised by their first token event). R4d: a token or its text is only ever appended, assigned or written in format.go — handing it to any other function is a transformation of source text (a re-spaced `//[tag(…)]` stops being a field tag). R5: the readonly marker is carried to the struct formatter. R5b: the token kinds the parser skips between `readonly` and the record keyword (through a helper handed the reader before the arm's own Next()) are kinds on which format leaves its marker set. R7: every non-range loop of the formatter takes a token per cycle on balance or counts to its bound (the loop-progress rule of C10/R9 on format.go): Format terminates on finite input. R6: a line comment reaches the output with its line break: the tokenizer appends everything its delimiter read returned, or every formatter site adds the break. R8: the parser does not let a line break decide whether a non-comment attribute reaches its definition (C11/R1b on the five definition loops): Format removes blank lines, so an attribute a blank line detaches would be attached after formatting.")
 	p := loadRepo(c)
 	if p == nil {
 		return
@@ -724,6 +724,89 @@ func checkC16(c *core.Ctx) {
 		c.Undecide("format does not call formatStruct with a boolean variable: how the readonly marker travels is not recognised")
 	} else {
 		c.Check("R5", "the readonly marker reaches formatStruct", p.Pos(ff.Pos()), raised, "no boolean set in the readonly arm is passed to formatStruct: `readonly struct` is formatted as `struct`")
+	}
+	// ---- R5b: what the parser lets stand between `readonly` and the record
+	// keyword, the formatter's marker survives. The parser's arm: calls that are
+	// handed the reader before the arm's first own Next() may skip tokens (a
+	// helper like optNewline); the kinds they name are the kinds allowed in
+	// between. The formatter's marker survives the kinds of the arms that leave
+	// the iteration (continue) before the marker is cleared.
+	if roArm := caseBody(rf, "tokenKindReadOnly"); roArm != nil && len(passed) > 0 {
+		between := map[string]bool{}
+		var firstNext token.Pos
+		for _, st := range roArm {
+			ast.Inspect(st, func(n ast.Node) bool {
+				if call, ok := n.(*ast.CallExpr); ok && isMethodCall(call, "tr", "Next") && firstNext == 0 {
+					firstNext = call.Pos()
+				}
+				return true
+			})
+		}
+		for _, st := range roArm {
+			ast.Inspect(st, func(n ast.Node) bool {
+				call, ok := n.(*ast.CallExpr)
+				if !ok || (firstNext != 0 && call.Pos() > firstNext) {
+					return true
+				}
+				cal := load.Callee(info, call)
+				if cal == nil || cal.Pkg() != pkg.Types {
+					return true
+				}
+				takesReader := false
+				for _, a := range call.Args {
+					if t := info.TypeOf(a); t != nil && strings.HasSuffix(t.String(), ".tokenReader") {
+						takesReader = true
+					}
+				}
+				cd := p.Decl(cal)
+				if !takesReader || cd == nil || cd.Body == nil {
+					return true
+				}
+				ast.Inspect(cd.Body, func(k ast.Node) bool {
+					if id, ok := k.(*ast.Ident); ok && strings.HasPrefix(id.Name, "tokenKind") {
+						if _, isConst := info.ObjectOf(id).(*types.Const); isConst {
+							between[id.Name] = true
+						}
+					}
+					return true
+				})
+				return true
+			})
+		}
+		survives := map[string]bool{}
+		ast.Inspect(ff.Body, func(n ast.Node) bool {
+			cl, ok := n.(*ast.CaseClause)
+			if !ok || len(cl.Body) == 0 {
+				return true
+			}
+			if br, ok := cl.Body[len(cl.Body)-1].(*ast.BranchStmt); ok && br.Tok == token.CONTINUE {
+				clears := false
+				for _, st := range cl.Body {
+					if as, ok := st.(*ast.AssignStmt); ok && len(as.Lhs) == 1 && len(as.Rhs) == 1 {
+						if id, ok := as.Lhs[0].(*ast.Ident); ok && passed[info.ObjectOf(id)] {
+							if tv := info.Types[as.Rhs[0]]; tv.Value != nil && tv.Value.String() == "false" {
+								clears = true
+							}
+						}
+					}
+				}
+				if !clears {
+					for _, e := range cl.List {
+						survives[wire.Canon(e)] = true
+					}
+				}
+			}
+			return true
+		})
+		var lost []string
+		for k := range between {
+			if !survives[k] {
+				lost = append(lost, k)
+			}
+		}
+		sort.Strings(lost)
+		c.Check("R5b", "the formatter's readonly marker survives what the parser allows between `readonly` and the record", p.Pos(ff.Pos()), len(lost) == 0,
+			fmt.Sprintf("ReadFile skips %v after `readonly` before it expects the record keyword, but format clears its marker on those tokens: `readonly` followed by such a token is formatted as a plain struct", lost))
 	}
 }
 
